@@ -21,6 +21,10 @@ claim("C03", "path-sensitive SSA fact walk + sibling agreement",
       "Structural necessary condition of the state<->CSRF-cookie binding, for all inputs/configurations: every saving path of the callback passed decodeState -> LoadCSRFCookie(name derived from that nonce) -> CheckOAuthState(that nonce) on that object; the cookie loader/decoder accept only a same-named, Validate-ok cookie; start side sends the hashes of the object whose cookie it set; name derivations and state encoding agree. Level 'other'.",
       TRUST + " Not decided: the 'succeeds' direction and concurrent-login orderings.", "DESIGN.md §5 C03")
 
+claim("C08", "path-sensitive SSA fact walk over the serving paths and the authorisation predicates",
+      "Structural necessary condition for all sessions/configurations: every serving path (authenticated return of getAuthenticatedSession, callback save, auth-only 202) is gated by the authorisation predicates evaluated on the same session with outcome true; denied paths clear the cookie; each small predicate (authOnlyAuthorize, checkAllowed*, ProviderData.Authorize) returns true only via 'not configured' or a membership test on the session's own field. Level 'other'.",
+      TRUST + " Not decided: string semantics of e-mail/domain validators and allow-list contents.", "DESIGN.md §5 C08")
+
 for i in range(2, 21):
     pid = "C%02d" % i
     if pid not in T:
